@@ -12,6 +12,7 @@ from pytestarch.eval_structure_generation.file_import.converter import ImportCon
 from pytestarch.eval_structure_generation.file_import.file_filter import FileFilter
 from pytestarch.eval_structure_generation.file_import.import_filter import (
     ExternalImportFilter,
+    is_internal_module,
 )
 from pytestarch.eval_structure_generation.file_import.import_types import NamedModule
 from pytestarch.eval_structure_generation.file_import.importee_module_calculator import (
@@ -67,7 +68,12 @@ def generate_graph(
     )
 
     all_modules = _append_external_modules_to_module_list(
-        all_modules, exclude_external_libraries, imports, root_path, external_exclusions
+        all_modules,
+        exclude_external_libraries,
+        imports,
+        root_path,
+        external_exclusions,
+        internal_module_prefix,
     )
     return EvaluableArchitectureGraph(NetworkxGraph(all_modules, imports, level_limit))
 
@@ -78,15 +84,25 @@ def _append_external_modules_to_module_list(
     imports: Sequence[Import],
     root_path: Path,
     external_exclusions: tuple[str, ...],
+    internal_module_prefix: str = "",
 ) -> list[Node]:
     """External modules are not detected as modules when importing the source folder - but they will of course show up
     in the imports. To ensure that all edges in the graph have nodes attached, the external modules need to be added to
-    the list of modules/nodes."""
+    the list of modules/nodes. Internal modules are never added or removed here: all internal modules have already
+    been detected, and the external exclusions must only apply to external modules."""
     if exclude_external_libraries:
         return all_modules
 
+    internal_modules = set(all_modules)
+
+    external_imports = [
+        imp
+        for imp in imports
+        if not is_internal_module(imp.importee(), internal_module_prefix)
+    ]
+
     all_modules = ImporteeModuleCalculator(root_path).calculate_importee_modules(
-        imports,
+        external_imports,
         all_modules,
     )
 
@@ -95,7 +111,11 @@ def _append_external_modules_to_module_list(
     if not file_filter.has_filter():
         return all_modules
 
-    return [module for module in all_modules if not file_filter.is_excluded(module)]
+    return [
+        module
+        for module in all_modules
+        if module in internal_modules or not file_filter.is_excluded(module)
+    ]
 
 
 def _remove_excluded_imports(
@@ -172,4 +192,4 @@ def _get_all_ast_modules(
 def _get_all_internal_modules(
     modules: list[str], internal_module_prefix: str
 ) -> set[str]:
-    return {m for m in modules if m.startswith(internal_module_prefix)}
+    return {m for m in modules if is_internal_module(m, internal_module_prefix)}
